@@ -249,7 +249,16 @@ FHexLike == {[Base("hexlike") EXCEPT !.tags = IF third THEN << << <<k>>, <<120>>
                : k \in {101, 112, 97}, n \in {63, 64, 65, 128}, p \in {0, 30, 60}, sp \in {<<34>>, <<92>>, <<10>>, <<34, 44, 34>>},
                  third \in BOOLEAN}
 
-Events == FContent \cup FTagStr \cup FShape \cup FNested \cup FNum \cup FLong \cup FBound \cup FHexLike
+\* tags that other NIPs give a meaning to (NIP-40 expiration, NIP-70 protected "-", NIP-13 nonce): verification is a function of the
+\* signed fields alone - it does not interpret tags, and it does not consult the clock
+ExpName == <<101, 120, 112, 105, 114, 97, 116, 105, 111, 110>>                         \* expiration
+ExpVals == { <<49>>, <<49, 55, 48, 48, 48, 48, 48, 48, 48, 48>>, <<57, 57, 57, 57, 57, 57, 57, 57, 57, 57, 57>>,   \* 1, 1700000000, 99999999999
+             <<116, 111, 109, 111, 114, 114, 111, 119>>, <<>>, <<45, 49>> }                                       \* tomorrow, empty, -1
+FMeaning == {[Base("meaning") EXCEPT !.tags = T, !.content = <<99>>] :
+                T \in {<< <<ExpName, v>> >> : v \in ExpVals} \cup {<< <<<<116>>, <<120>>>>, <<ExpName, v>> >> : v \in ExpVals}
+                     \cup {<< <<ExpName>> >>, << <<<<45>>>> >>, << <<<<110, 111, 110, 99, 101>>, <<49>>, <<50, 48>>>> >>}}
+
+Events == FContent \cup FTagStr \cup FShape \cup FNested \cup FNum \cup FLong \cup FBound \cup FHexLike \cup FMeaning
 
 (* ----------------------------------- tampering -------------------------------- *)
 RemoveAt(s, i)     == SubSeq(s, 1, i - 1) \o SubSeq(s, i + 1, Len(s))
@@ -322,6 +331,7 @@ StrSize(e) == Len(e.content) + Len(Cat(Cat(e.tags)))      \* code points in all 
 \* which enumerated events are tampered with: all of them (thorough), or a subset that keeps every
 \* tamper operator and every family represented (quick)
 Tampered(e) == \/ TamperWide /\ e.f \notin {"long", "hexlike"}
+               \/ e.f = "meaning" /\ Len(e.tags) = 1
                \/ e.f \in {"content", "tagstr"} /\ StrSize(e) <= 1
                \/ e.f = "shape"
                \/ e.f = "nested" /\ (Len(e.content) = 0 \/ Len(e.tags) = 0)
